@@ -78,3 +78,60 @@ Proof.
   intros H; inversion H; subst. apply orb_false_iff in E as [E1 E2].
   apply N.ltb_ge in E1. apply N.ltb_ge in E2. lia.
 Qed.
+
+(* ---------- the receiving side of the connection model ---------- *)
+(* Message.build on a message whose first frame has RSV1, on a connection that negotiated the extension: exactly one
+   Deflate.decompress call with the payloads of all fragments in arrival order, in the current context epoch; exactly one
+   result of the inflate oracle is consumed; the context moves to a new epoch when the peer ended its DEFLATE stream in
+   this message and (again) when server_no_context_takeover was negotiated; a zlib error is a critical protocol error,
+   anything else is judged on the INFLATED payload (a text message by the UTF-8 check of what was inflated) *)
+Definition bump (b : bool) (n : N) : N := if b then N.succ n else n.
+
+Lemma build_message_fst c frames :
+  fst (build_message c frames) =
+  fst (match f_rsv1 (hd {| f_fin := true; f_rsv1 := false; f_rsv2 := false; f_rsv3 := false; f_op := 0; f_key := None; f_payload := [] |} frames), k_deflate c with
+       | true, Some d => inflate c d (map f_payload frames)
+       | _, _ => (c, Some (concat (map f_payload frames)))
+       end).
+Proof.
+  unfold build_message.
+  match goal with |- context [let '(c1, payload) := ?X in _] => destruct X as [c1 [p|]] end; cbn [fst]; [|reflexivity].
+  repeat match goal with |- context [if ?b then _ else _] => destruct b end; try reflexivity.
+  destruct p as [|a [|b r]]; try reflexivity. destruct (Utf8.utf8_validb r); reflexivity.
+Qed.
+
+Theorem build_message_compressed c d f0 rest :
+  k_deflate c = Some d -> f_rsv1 f0 = true ->
+  let frames := f0 :: rest in
+  let c' := fst (build_message c frames) in
+  k_tr c' = TInflate (k_zin c) (map f_payload frames) :: k_tr c /\
+  k_ztape c' = tl (k_ztape c) /\
+  match k_ztape c with
+  | Some (out, ended) :: _ =>
+      k_zin c' = bump (d_reset d) (bump ended (k_zin c)) /\
+      (f_op f0 = OP_BINARY -> snd (build_message c frames) = inl (MBinary out)) /\
+      (f_op f0 = OP_TEXT -> snd (build_message c frames) = if Utf8.utf8_validb out then inl (MText out) else inr MCritical)
+  | None :: _ | [] => k_zin c' = k_zin c /\ snd (build_message c frames) = inr MCritical
+  end.
+Proof.
+  intros Hd Hr. cbv zeta. rewrite build_message_fst. cbn [hd]. rewrite Hr, Hd.
+  unfold build_message. cbn [hd]. rewrite Hr, Hd. unfold inflate.
+  destruct (k_ztape c) as [|[[out ended]|] zs] eqn:Et.
+  - cbn. rewrite Et. auto.
+  - cbn. rewrite Et. cbn.
+    destruct ended, (d_reset d); cbn; (split; [reflexivity|]); (split; [reflexivity|]); (split; [reflexivity|]);
+      (split; [intros ->; reflexivity|intros ->; cbn; destruct (Utf8.utf8_validb out); reflexivity]).
+  - cbn. rewrite Et. cbn. auto.
+Qed.
+
+(* ... and a message without RSV1 never touches the inflate oracle, negotiated or not *)
+Theorem build_message_plain_untouched c f0 rest :
+  f_rsv1 f0 = false ->
+  let c' := fst (build_message c (f0 :: rest)) in
+  c' = c.
+Proof.
+  intros Hr. cbv zeta. unfold build_message. cbn [hd]. rewrite Hr.
+  repeat match goal with |- context [if ?b then _ else _] => destruct b end; try reflexivity;
+    destruct (concat (map f_payload (f0 :: rest))) as [|a [|b r]]; try reflexivity;
+    repeat match goal with |- context [if ?b then _ else _] => destruct b end; reflexivity.
+Qed.
